@@ -1615,7 +1615,7 @@ class LinearOperator(object):
         # Only singleton (or new leading) batch dimensions can be expanded
         num_new_dims = len(shape) - self.dim()
         if num_new_dims < 0 or any(
-            current not in (1, target) and target != -1
+            (current not in (1, target) and target != -1) or target < -1
             for current, target in zip(self.batch_shape, shape[num_new_dims:-2])
         ):
             raise RuntimeError(
@@ -1624,7 +1624,18 @@ class LinearOperator(object):
                 )
             )
 
-        res = self._expand_batch(batch_shape=shape[:-2])
+        # -1 means "keep the size of this (existing) dimension"
+        if any(size < 0 for size in shape[:num_new_dims]):
+            raise RuntimeError(
+                "Invalid expand arguments {}: -1 is not allowed in a leading, non-existing dimension.".format(
+                    tuple(sizes)
+                )
+            )
+        batch_shape = shape[:num_new_dims] + torch.Size(
+            current if target == -1 else target for current, target in zip(self.batch_shape, shape[num_new_dims:-2])
+        )
+
+        res = self._expand_batch(batch_shape=batch_shape)
         return res
 
     def float(
